@@ -419,6 +419,13 @@ class World:
             f = fresh(self.models[i])
             if not (obj == f) or not (f == obj) or hash(obj) != hs:
                 raise Mismatch("snapshot", f"eq-hash:{self.models[i][0]}", f"pool[{i}] {rp[:200]} no longer equals / hashes like a fresh copy")
+            if len(M.variables(self.models[i])) <= 1 and M.size(self.models[i]) <= 200:
+                # ... and still accepts a bare number exactly like a fresh copy (the variable set is part of what it denotes)
+                a = lib.call(lambda: obj.at(0.75))
+                b = lib.call(lambda: f.at(0.75))
+                if lib.OVF not in (a.kind, b.kind) and a.key() != b.key() and not (a.kind == lib.EXC and b.kind == lib.EXC):
+                    raise Mismatch("snapshot", f"bare-number:{a.kind}/{b.kind}",
+                                   f"pool[{i}] {rp[:200]} at the bare number 0.75 gives {a!r} but a freshly built copy gives {b!r}")
         for P, coords, before in self.points:
             if (repr(P), hash(P)) != before or P != Point(**coords):
                 raise Mismatch("snapshot", "point", f"a Point changed: was {before[0]}, now {P!r}")
